@@ -34,7 +34,7 @@ META = {
 INVS = ("TypeOK OnlySuccessful QuorumBacked ErrWhenExceeded AtMostOneCall Minimised CleanupSafe CleanupExactlyOnce "
         "UnusedCancelled ReturnedNotCancelled PlainAllCancelled CancelJustified")
 WORKERS = int(os.environ.get("VERIF_TLC_WORKERS", "8"))
-CHUNK = 12000   # traces per TLC validation run
+CHUNK = 16000   # traces per TLC validation run
 
 
 def incon(why):
@@ -43,9 +43,10 @@ def incon(why):
 
 def model_check(ctx):
     cfgs = ["MC_quick.cfg", "MC_live.cfg"] if ctx.tier == "quick" else ["MC_quick.cfg", "MC_thorough.cfg", "MC_live3.cfg"]
+    cfgs += ["MC_do3.cfg"] if ctx.tier == "quick" else ["MC_do.cfg", "MC_do_live.cfg"]
     for cfg in cfgs:
-        r = ctx.tlc("quorumread", "QuorumRead", cfg=cfg, timeout=3000, workers=WORKERS,
-                    coverage=(ctx.tier == "thorough" and cfg == "MC_quick.cfg"))
+        r = ctx.tlc("quorumread", "QuorumDo" if cfg.startswith("MC_do") else "QuorumRead", cfg=cfg, timeout=3000, workers=WORKERS,
+                    coverage=(ctx.tier == "thorough" and cfg in ("MC_quick.cfg", "MC_do.cfg")))
         ctx.require_tlc_ok(r, cfg)
         if r.distinct < 1000:
             incon("%s explored only %d states" % (cfg, r.distinct))
@@ -62,14 +63,18 @@ def gen_replay(ctx):
     runs = []
     if ctx.tier == "quick":
         runs.append(dict(cfg="Gen_n2.cfg"))
-        runs.append(dict(cfg="Gen_sim4.cfg", simulate="num=500", depth=60))
+        runs.append(dict(cfg="Gen_sim4.cfg", simulate="num=700", depth=60))
+        runs.append(dict(cfg="Gen_sim4q.cfg", simulate="num=700", depth=60))
     else:
         runs.append(dict(cfg="Gen_n3.cfg"))
-        runs.append(dict(cfg="Gen_sim4.cfg", simulate="num=3000", depth=60))
-        runs.append(dict(cfg="Gen_sim6.cfg", simulate="num=3000", depth=80))
+        runs.append(dict(cfg="Gen_sim4.cfg", simulate="num=2000", depth=60))
+        runs.append(dict(cfg="Gen_sim4q.cfg", simulate="num=2000", depth=60))
+        runs.append(dict(cfg="Gen_sim6.cfg", simulate="num=2000", depth=80))
+        runs.append(dict(cfg="Gen_sim6q.cfg", simulate="num=2000", depth=80))
     for kw in runs:
         cfg = kw.pop("cfg")
-        r = ctx.tlc("quorumread", "QuorumReadGen", cfg=cfg, timeout=3000, workers=WORKERS, deadlock=False, **kw)
+        r = ctx.tlc("quorumread", "QuorumReadGen", cfg=cfg, timeout=3000, deadlock=False,
+                    workers=(1 if "simulate" in kw else WORKERS), **kw)   # one worker: -simulate is reproducible for a seed
         ctx.require_tlc_ok(r, cfg)
         if r.emitted == 0:
             incon("%s emitted no behaviours" % cfg)
@@ -98,15 +103,15 @@ def gen_replay(ctx):
         ctx.extra["behaviours_replayed"] = ctx.extra.get("behaviours_replayed", 0) + n
 
 
-def validate(ctx, trace_path, label):
-    """Run QuorumReadTrace on a trace file; returns the list of rejected traces."""
+def validate(ctx, trace_path, label, module="QuorumReadTrace"):
+    """Run the trace specification on a trace file; returns the list of rejected traces."""
     lines = open(trace_path).read().splitlines()
     rejected = []
     for k in range(0, len(lines), CHUNK):
         chunk = lines[k:k + CHUNK]
         p = ctx.path("%s_chunk%d.ndjson" % (label, k // CHUNK))
         open(p, "w").write("\n".join(chunk) + "\n")
-        r = ctx.tlc("quorumread", "QuorumReadTrace", cfg="QuorumReadTrace.cfg", extra_files={p: "trace.ndjson"},
+        r = ctx.tlc("quorumread", module, cfg=module + ".cfg", extra_files={p: "trace.ndjson"},
                     workers=WORKERS, deadlock=False, timeout=3000, heap="6g")
         ctx.require_tlc_ok(r, "trace validation " + label)
         acc = set(json.loads(x)["acc"] for x in open(r.out_path))
@@ -117,21 +122,24 @@ def validate(ctx, trace_path, label):
     return rejected
 
 
-def diagnose(ctx, t):
-    """How far does the specification follow a rejected trace, and what does it demand there."""
-    p = ctx.path("diag_%d.ndjson" % t["id"])
-    open(p, "w").write(json.dumps(t) + "\n")
-    r = ctx.tlc("quorumread", "QuorumReadTrace", cfg="QuorumReadTraceDiag.cfg", extra_files={p: "trace.ndjson"},
-                workers=1, deadlock=False, timeout=600, count=False)
-    best, want = 0, []
+def diagnose(ctx, traces, module="QuorumReadTrace"):
+    """One diagnostic TLC run over rejected traces: how far does the specification follow each of them, and which
+    observations does it demand at the line where it gets stuck.  Returns {id: (line, [demanded observations])}."""
+    p = ctx.path("diag_%s.ndjson" % module)
+    open(p, "w").write("".join(json.dumps(t) + "\n" for t in traces))
+    r = ctx.tlc("quorumread", module, cfg=module + "Diag.cfg", extra_files={p: "trace.ndjson"},
+                workers=1, deadlock=False, timeout=1500, count=False)
+    out = {}
     if r.out_path and os.path.exists(r.out_path):
         for x in open(r.out_path):
             d = json.loads(x)
+            best, want = out.get(d["id"], (0, []))
             if d["line"] > best:
                 best, want = d["line"], []
             if d["line"] == best and d.get("quiet") and d["obs"] not in want:
                 want.append(d["obs"])
-    return best, want
+            out[d["id"]] = (best, want)
+    return out
 
 
 def describe(t, line):
@@ -141,8 +149,10 @@ def describe(t, line):
     prev = next((x for x in reversed(steps[:idx]) if x["a"] != "obs"), None)
     after = "start" if prev is None else (prev["a"] + ("(%s)" % prev["o"] if prev["a"] == "finish" else ""))
     c = t["cfg"]
-    cs = "mode=%s minimize=%s hedge=%s terminal=%s nocancel=%s" % (c["mode"], str(c["minimize"]).lower(), str(c["hedge"]).lower(),
-                                                                   str(c["terminal"]).lower(), str(c["nocancel"]).lower())
+    if "minimize" in c:
+        cs = "mode=%s minimize=%s" % (c["mode"], str(c["minimize"]).lower())
+    else:
+        cs = "legacy Do mode=%s delay=%s" % (c["mode"], str(c["delay"]).lower())
     if s["a"] == "obs":
         return "trace rejected: observation after %s is not a behaviour of the specification: %s" % (after, cs), s
     return "trace rejected: environment step %s not enabled in the specification: %s" % (s["a"], cs), s
@@ -152,7 +162,7 @@ def record_validate(ctx):
     """code -> spec"""
     if ctx.tier == "quick":
         env = {"VERIF_NS": "[1,2,3]", "VERIF_FLAGS": "core", "VERIF_ROUNDS": 2, "VERIF_MAXZ": 3,
-               "VERIF_SAMPLE_NS": "[3,4]", "VERIF_SAMPLES": 3, "VERIF_SAMPLE_MAXZ": 3}
+               "VERIF_SAMPLE_NS": "[4]", "VERIF_SAMPLES": 2, "VERIF_SAMPLE_MAXZ": 3}
     else:
         env = {"VERIF_NS": "[1,2,3]", "VERIF_FLAGS": "all", "VERIF_ROUNDS": 3, "VERIF_MAXZ": 3,
                "VERIF_DFS4": 1, "VERIF_SAMPLE_NS": "[4,5,6]", "VERIF_SAMPLES": 12, "VERIF_SAMPLE_MAXZ": 4}
@@ -172,7 +182,7 @@ def record_validate(ctx):
         return
     # triage: re-record the rejected schedules once; only a rejection that repeats is a verdict
     rp = ctx.path("rejected.ndjson")
-    open(rp, "w").write("".join(json.dumps(t) + "\n" for t in rejected[:200]))
+    open(rp, "w").write("".join(json.dumps(t) + "\n" for t in rejected[:60]))
     rp2 = ctx.path("rerecorded.ndjson")
     env2 = {"VERIF_IN": rp, "VERIF_TRACE_OUT": rp2}
     if "VERIF_CORRUPT_TRACE" in env:
@@ -181,22 +191,53 @@ def record_validate(ctx):
     if res2.get("fatal"):
         incon("re-recording failed: %s" % res2["fatal"])
     again = {t["id"]: t for t in validate(ctx, rp2, "rerec")}
-    confirmed = [t for t in rejected[:200] if t["id"] in again]
+    confirmed = [t for t in rejected[:60] if t["id"] in again]
     if not confirmed:
         incon("%d recorded traces were rejected by the specification but accepted when re-recorded (driver ordering problem?)" % len(rejected))
+    report(ctx, [again[t["id"]] for t in confirmed], len(rejected), "QuorumReadTrace", "record/validate")
+
+
+def report(ctx, confirmed, nrej, module, label):
+    """File the confirmed rejections as disagreements, a few per signature."""
+    diag = diagnose(ctx, confirmed[:40], module)
     by_sig = {}
-    for t in confirmed:
-        if len(by_sig) >= 6 and len(confirmed) > 12:
-            break
-        line, want = diagnose(ctx, again[t["id"]]) if len(by_sig) < 6 else (0, [])
-        sig, got = describe(again[t["id"]], line)
-        if sig in by_sig and by_sig[sig] >= 2:
-            continue
+    for t in confirmed[:40]:
+        line, want = diag.get(t["id"], (0, []))
+        sig, got = describe(t, line)
         by_sig[sig] = by_sig.get(sig, 0) + 1
-        ctx.disagreement({"sig": sig, "case": again[t["id"]], "got": got,
-                          "want": want[:4] or "a quiescent state of QuorumRead reachable by internal steps that agrees with the observation",
-                          "note": "rejected at line %d of %d; %d traces rejected in this run" % (line, len(t["steps"]), len(rejected))},
-                         "record/validate")
+        if by_sig[sig] > 2:
+            continue
+        ctx.disagreement({"sig": sig, "case": t, "got": got,
+                          "want": want[:4] or "a quiescent state of the specification reachable by internal steps that agrees with the observation",
+                          "note": "rejected at line %d of %d; %d traces rejected in this run" % (line, len(t["steps"]), nrej)}, label)
+
+
+def record_validate_do(ctx):
+    """code -> spec, legacy executor ReplicationSet.Do (deterministic given the schedule, so a rejection needs no re-recording
+    triage beyond one repetition of the whole recording)"""
+    env = {"VERIF_NS": "[1,2,3]" if ctx.tier == "quick" else "[1,2,3,4]", "VERIF_MAXZ": 3}
+    if os.environ.get("C11_SELFTEST") == "corrupt_trace_do":
+        env["VERIF_CORRUPT_TRACE"] = "5"
+    rejected = None
+    for attempt in (1, 2):
+        tp = ctx.path("do_traces%d.ndjson" % attempt)
+        env["VERIF_TRACE_OUT"] = tp
+        res = ctx.run_harness("c11", "^TestRecordDo$", env=env, timeout=3000)
+        nrec = res.get("cases", 0)
+        if nrec == 0:
+            incon("no Do traces recorded")
+        rej = validate(ctx, tp, "do%d" % attempt, module="QuorumDoTrace")
+        if attempt == 1:
+            res["cases"] = nrec - len(rej)
+            ctx.absorb(res, "record Do")
+            if not rej:
+                return
+            rejected = {json.dumps([t["cfg"], [s for s in t["steps"] if s["a"] != "obs"]], sort_keys=True) for t in rej}
+        else:
+            confirmed = [t for t in rej if json.dumps([t["cfg"], [s for s in t["steps"] if s["a"] != "obs"]], sort_keys=True) in rejected]
+            if not confirmed:
+                incon("%d Do traces were rejected but not when recorded again" % len(rejected))
+            report(ctx, confirmed, len(confirmed), "QuorumDoTrace", "record/validate Do")
 
 
 def run(ctx):
@@ -208,7 +249,11 @@ def run(ctx):
                        "callbacks ignore context cancellation until the driver lets them return (cancellation is observed, not acted on)",
                        "environment steps happen at quiescent points; select races are decided on the specification only"]
     ctx.exhaustive = True
-    model_check(ctx)
+    if os.environ.get("C11_SKIP_MC"):      # development aid for mutation runs: the model-checking step does not touch the code
+        ctx.log("C11_SKIP_MC set: skipping the exhaustive model-checking step")
+    else:
+        model_check(ctx)
     gen_replay(ctx)
     record_validate(ctx)
+    record_validate_do(ctx)
     return "model_checking"
